@@ -288,6 +288,26 @@ def oracle_roundtrip(case, rec):
                 raise Violation('C18/roundtrip/%s/loaded-config-not-callable/%s' % (route, type(e).__name__), repr(e))
             if out.shape != ref.shape or not np.array_equal(out, ref):
                 raise Violation('C18/roundtrip/%s/loaded-config-behaves-differently' % route, '')
+        # the configuration has been saved; it is now edited through nested indexing (the edit reaches the inner dict
+        # directly) and saved again: what is read back must be the configuration as it is now
+        if isinstance(conf.store.get('imf_opts'), dict):
+            newval = 0.0123 if conf['imf_opts'].get('sd_thresh') != 0.0123 else 0.0321
+            conf['imf_opts']['sd_thresh'] = newval
+            conf['extrema_opts']['pad_width'] = 3 if conf['extrema_opts'].get('pad_width') != 3 else 2
+            now = copy.deepcopy(conf.store)
+            for route in ('text', 'file'):
+                try:
+                    if route == 'file':
+                        fn = os.path.join(tmpdir, 'conf2.yml')
+                        conf.to_yaml_file(fn)
+                        again = emd.sift.SiftConfig.from_yaml_file(fn)
+                    else:
+                        again = emd.sift.SiftConfig.from_yaml_stream(conf.to_yaml_text())
+                except Exception as e:
+                    raise Violation('C18/roundtrip/%s/second-save-raises/%s' % (route, type(e).__name__), repr(e))
+                if not isinstance(again.store, dict) or not deep_equal(now, again.store, loose=True):
+                    raise Violation('C18/roundtrip/%s/second-save-after-a-nested-edit-is-stale' % route,
+                                    'live %r read back %r' % (now.get('imf_opts'), again.store.get('imf_opts') if isinstance(again.store, dict) else again.store))
     finally:
         import shutil
         shutil.rmtree(tmpdir, ignore_errors=True)
